@@ -521,6 +521,133 @@ async fn concurrent(ctx: &mut Ctx, nclients: usize, per: u32, seed: u64, case: &
     }
 }
 
+/// REP: a client that announced an identity comes back on a new connection (the old one
+/// ended, seen or not): the reply to a request read from the new connection goes there.
+async fn rep_reconnect(ctx: &mut Ctx, observed: bool, case: &Value) {
+    let mut sock = Sock::new("REP", None);
+    let old = match Peer::attach(&sock, "REQ", Some(b"client-x")).await {
+        Ok(p) => p,
+        Err(e) => {
+            ctx.inconclusive(format!("C08 attach: {e}"));
+            return;
+        }
+    };
+    let other = match Peer::attach(&sock, "REQ", Some(b"client-y")).await {
+        Ok(p) => p,
+        Err(e) => {
+            ctx.inconclusive(format!("C08 attach: {e}"));
+            return;
+        }
+    };
+    let mut w = vec![vec![]];
+    w.extend(rc::tagged(1, 0, &[2]));
+    old.send(&w);
+    if !matches!(recv_now(&mut sock).await, Some(Ok(_))) || !matches!(sim::complete(sock.send(&rc::tagged(2, 0, &[1]))).await, Ok(Ok(()))) {
+        ctx.inconclusive("C08 rep_reconnect: first round trip failed".into());
+        return;
+    }
+    old.conn.close_full(crate::pipe::EndKind::Eof);
+    if observed {
+        let _ = recv_now(&mut sock).await;
+    }
+    let newc = match Peer::attach(&sock, "REQ", Some(b"client-x")).await {
+        Ok(p) => p,
+        Err(e) => {
+            ctx.violation_with("C08/rep/reconnecting-client-rejected", e, case.clone());
+            return;
+        }
+    };
+    ctx.count("rep_client_reconnects");
+    let mut w2 = vec![vec![]];
+    w2.extend(rc::tagged(1, 1, &[2]));
+    newc.send(&w2);
+    let mut got = false;
+    for _ in 0..3 {
+        match recv_now(&mut sock).await {
+            Some(Ok(m)) if rc::parse_tag(&m, 0).map(|t| t.seq == 1).unwrap_or(false) => {
+                got = true;
+                break;
+            }
+            Some(_) => continue,
+            None => break,
+        }
+    }
+    if !got {
+        ctx.violation_with("C08/rep/request-of-reconnected-client-not-received", "request sent on the new connection was not returned by recv".into(), case.clone());
+        return;
+    }
+    let reply = rc::tagged(2, 1, &[1]);
+    let before_other = other.conn.tap_len();
+    let r = sim::complete(sock.send(&reply)).await;
+    let mut want = vec![vec![]];
+    want.extend(reply.clone());
+    if !matches!(r, Ok(Ok(()))) || newc.out_msgs().ok() != Some(vec![want]) || other.conn.tap_len() != before_other {
+        ctx.violation_with(
+            "C08/rep/reply-not-on-the-requesters-connection",
+            format!(
+                "client reconnected under its identity (old connection's end observed first: {observed}); reply to the request read from the NEW connection: send returned {r:?}, new connection received {:?}",
+                newc.out_msgs().map(|v| v.iter().map(|m| rc::frames_summary(m)).collect::<Vec<_>>())
+            ),
+            case.clone(),
+        );
+    }
+}
+
+/// REQ: a send that FAILS (the chosen server's connection was reset) issues nothing: the
+/// socket is still idle, so the next send (to the other server) is in turn.
+async fn req_failed_send(ctx: &mut Ctx, case: &Value) {
+    let mut sock = Sock::new("REQ", None);
+    let bad = match Peer::attach(&sock, "REP", Some(b"resets")).await {
+        Ok(p) => p,
+        Err(e) => {
+            ctx.inconclusive(format!("C08 attach: {e}"));
+            return;
+        }
+    };
+    let good = match Peer::attach(&sock, "REP", Some(b"stays")).await {
+        Ok(p) => p,
+        Err(e) => {
+            ctx.inconclusive(format!("C08 attach: {e}"));
+            return;
+        }
+    };
+    bad.conn.close_full(crate::pipe::EndKind::Reset);
+    let r1 = sim::complete(sock.send(&rc::tagged(1, 0, &[1]))).await;
+    if !matches!(r1, Ok(Err(_))) {
+        // rotation may start at the healthy server: answer and try once more
+        if matches!(r1, Ok(Ok(()))) {
+            good.send(&[vec![], b"ok".to_vec()]);
+            let _ = recv_now(&mut sock).await;
+            let r1b = sim::complete(sock.send(&rc::tagged(1, 1, &[1]))).await;
+            if !matches!(r1b, Ok(Err(_))) {
+                ctx.count("req_failed_send_not_reached");
+                return;
+            }
+        }
+    }
+    ctx.count("req_sends_failing_on_a_reset_connection");
+    // nothing was issued: recv is out of turn ...
+    match recv_now(&mut sock).await {
+        Some(Err(_)) => {}
+        other => {
+            ctx.violation_with("C08/req/recv-result-differs-from-state-machine", format!("after a FAILED send recv returned {other:?} (no request is outstanding)"), case.clone());
+            return;
+        }
+    }
+    // ... and the next send is in turn and reaches the healthy server
+    let msg = rc::tagged(1, 2, &[1]);
+    let before = good.out_msgs().map(|m| m.len()).unwrap_or(0);
+    let r2 = sim::complete(sock.send(&msg)).await;
+    let after = good.out_msgs().map(|m| m.len()).unwrap_or(0);
+    if !matches!(r2, Ok(Ok(()))) || after != before + 1 {
+        ctx.violation_with(
+            "C08/req/send-result-differs-from-state-machine",
+            format!("a send failed on a reset connection (nothing was issued); the next send returned {r2:?} and the healthy server received {} new requests", after - before),
+            case.clone(),
+        );
+    }
+}
+
 impl Prop for C08 {
     fn id(&self) -> &'static str {
         "C08"
@@ -554,6 +681,10 @@ impl Prop for C08 {
                 }
             }
         }
+        for observed in [false, true] {
+            v.push(json!({"kind": "rep_reconnect", "observed": observed}));
+        }
+        v.push(json!({"kind": "req_failed_send"}));
         for n in 1..=8usize {
             for k in 0..tier.pick(100, 1000) {
                 v.push(json!({"kind": "concurrent", "clients": n, "per": 4, "seed": mix(seed ^ (k as u64) << 8 ^ n as u64)}));
@@ -586,6 +717,8 @@ impl Prop for C08 {
                 ctx.sample("req_seq3", || json!({"seq": seq.iter().collect::<String>()}));
                 sim::run(req_sequence(ctx, &seq, s(case, "mode"), 1, case));
             }
+            "rep_reconnect" => sim::run(rep_reconnect(ctx, case["observed"].as_bool().unwrap_or(false), case)),
+            "req_failed_send" => sim::run(req_failed_send(ctx, case)),
             "rep_seq3" => {
                 let seq = seq3_from_code(u(case, "len") as usize, u(case, "code") as usize);
                 ctx.count("rep_sequences_with_malformed_requests");
@@ -611,6 +744,8 @@ impl Prop for C08 {
             ("req_recv_parked", 100),
             ("rep_recv_parked", 100),
             ("rep_sequences_with_malformed_requests", 500),
+            ("rep_client_reconnects", 2),
+            ("req_sends_failing_on_a_reset_connection", 1),
             ("req_sequences_with_abandoned_recvs", 500),
             ("req_abandoned_recvs", 1000),
             ("rep_malformed_requests", 1000),
